@@ -296,6 +296,13 @@ def selection(env):
     env.eq('loss_uses_kernel_k_for_residual_k', rm.loss(None, None), (half * x1).sum() + (quarter * x2).sum())
     rm1 = optm.RobustModel(M(), [k1])
     env.eq('single_kernel_applies_to_every_residual', rm1.loss(None, None), (half * x1).sum() + (half * x2).sum())
+    # a residual without batch axes, shape (d,): ONE residual item of dimension d (as the correctors treat it), not d scalar items
+    rv = env.vec('rv', 3)
+    class Mv(nn.Module):
+        def __init__(self): super().__init__(); self.w = nn.Parameter(T.zeros(1))
+        def forward(self, inp): return rv
+    kq = ker.Cauchy(Q(1) if env.sym else 1.0)
+    env.eq('loss_of_a_rank_1_residual_is_kernel_of_its_squared_norm', optm.RobustModel(Mv(), [kq]).loss(None, None), kq((rv * rv).sum(-1, keepdim=True)).sum())
     rm0 = optm.RobustModel(M1(), None)
     env.eq('no_kernel_is_plain_sum_of_squares', rm0.loss(None, None), x1.sum())
     for cls in (optm.GaussNewton, optm.LevenbergMarquardt):
